@@ -174,7 +174,7 @@ fn replay_cmd(id: &str, file: &str) -> i32 {
             }
         };
     }
-    let ctx = CaseCtx { want_render: true, tier_thorough: false, release: !cfg!(debug_assertions) };
+    let ctx = CaseCtx { want_render: true, tier_thorough: r.thorough, release: !cfg!(debug_assertions) };
     let mut ch = Choices::new(&r.choices, r.direct);
     let out = match std::panic::catch_unwind(std::panic::AssertUnwindSafe(|| (p.case)(&mut ch, &ctx))) {
         Ok(o) => o,
@@ -318,6 +318,7 @@ fn parent(id: &str, tier: &str) -> i32 {
     let p = find_prop(id);
     let t0 = Instant::now();
     let thorough = tier == "thorough";
+    REPLAY_TIER_THOROUGH.store(thorough, std::sync::atomic::Ordering::Relaxed);
     let seed = seed_from_env();
     let root = verif_root();
     let rundir = format!("{}/.run/{}", root, id);
